@@ -1,6 +1,8 @@
 package scan
 
 import (
+	"syscall"
+	"net"
 	"context"
 	"errors"
 	"io"
@@ -36,6 +38,7 @@ type c07RW struct {
 	nwrites  int
 	inflight int
 	doneSeen func() bool
+	errKinds bool
 }
 
 var errC07Write = errors.New("write failed")
@@ -53,6 +56,17 @@ func (w *c07RW) WritePacketData(pkt []byte) error {
 	}
 	if len(cp) == 4 && int(cp[1]) < len(w.fail) && w.fail[cp[1]] {
 		_ = k
+		if w.errKinds {
+			// a failed write is a failed write whatever the errno: the frame did not leave, one error is due
+			switch verifConcretize(uint64(ndU8("writeErrKind") % 4)) {
+			case 1:
+				return syscall.EAGAIN
+			case 2:
+				return syscall.ENOBUFS
+			case 3:
+				return &net.OpError{Op: "write", Err: syscall.ECONNRESET}
+			}
+		}
 		return errC07Write
 	}
 	return nil
@@ -69,7 +83,7 @@ func (c07Proc) ProcessPacketData([]byte, *gopacket.CaptureInfo) error { return n
 func VerifH_C07_pipeline() {
 	K, N := verifParam("K", 2), verifParam("N", 2)
 	fl := &c07Filler{fail: make([]bool, K)}
-	rw := &c07RW{fail: make([]bool, K)}
+	rw := &c07RW{fail: make([]bool, K), errKinds: verifParam("ERRKINDS", 0) == 1}
 	var reqs []*Request
 	kind := make([]int, K) // 0 good, 1 error entry, 2 build failure, 3 write failure
 	for i := 0; i < K; i++ {
@@ -149,6 +163,10 @@ func VerifH_C07_pipeline() {
 		case errC07Write:
 			c++
 		default:
+			if _, isOp := e.(*net.OpError); isOp || e == error(syscall.EAGAIN) || e == error(syscall.ENOBUFS) {
+				c++ // one of the other write failures
+				break
+			}
 			verifAssert(false, "unknown error on the error stream")
 		}
 	}
